@@ -117,7 +117,7 @@ def main():
     pids = sys.argv[1:] or sorted(os.path.basename(p) for p in glob.glob("/tmp/wt/C*"))
     jobs = []
     for pid in pids:
-        for rnd, off in (("_seed", 0), ("_seed2", 3), ("_seed3", 6), ("_seed4", 9), ("_seed5", 12), ("_seed6", 15)):
+        for rnd, off in (("_seed", 0), ("_seed2", 3), ("_seed3", 6), ("_seed4", 9), ("_seed5", 12), ("_seed6", 15), ("_seed7", 18)):
             for src in sorted(glob.glob("/tmp/wt/%s/%s/*" % (pid, rnd))):
                 k = os.path.basename(src)
                 if k.isdigit():
